@@ -715,6 +715,53 @@ def gen_history(rng, nops, faulty=False):
     return lines
 
 
+def systematic():
+    """Deterministic sweep of the case splits: for both containers, element sizes 1 and 4, every count 0..9 and
+    16, with a spare slot and exactly full, every operation at every boundary index (0, 1, middle, n-2, n-1, n,
+    n+1, 2^63, SIZE_MAX-1, SIZE_MAX), sorted inserts below / inside / above the existing elements."""
+    out = []
+    for kind in ("v", "b"):
+        for siz in (1, 4):
+            def el(i):
+                return (bytes([i]) + bytes(siz - 1)).hex()
+            for n in list(range(0, 10)) + [16]:
+                for full in (False, True):
+                    if kind == "v" and full and n not in (8, 16):
+                        continue
+                    if kind == "v" and not full and n in (8, 16):
+                        continue
+                    P = "v 0" if kind == "v" else "b"
+                    pre = ["H %x -" % LIMIT]
+                    pre.append("vn 0 %x" % siz if kind == "v" else "bn %x %x" % (siz, n if full else n + 2))
+                    if n:
+                        pre.append("%s store 0 %s 0" % (P, ",".join(el(2 * i + 3) for i in range(n))))
+                    post = ["vd 0 1" if kind == "v" else "bd 1"]
+                    idxs = sorted(set([0, 1, n // 2, max(n - 2, 0), max(n - 1, 0), n, n + 1, 1 << 63, SIZE_MAX - 1, SIZE_MAX]))
+                    ops = []
+                    for i in idxs:
+                        ops += ["rem %x" % i, "ins %x %s" % (i, el(200)), "at %x" % i, "of %x" % ((M64 - i) % M64)]
+                        for c in sorted(set([0, 1, 2, max(n - i, 0) if i < M64 else 0, n, SIZE_MAX, (M64 - i) % M64,
+                                             (M64 - i + 1) % M64, 1 << 63])):
+                            ops.append("erase %x %x %d" % (i, c, (i + c) % 2))
+                        for k in (0, 1, 2, 3):
+                            ops.append("store %x %s %d" % (i, ",".join(el(100 + j) for j in range(k)) or "-", k % 2))
+                    for key in (0, 1, 2, 3, 4, n, 2 * n + 1, 2 * n + 2, 2 * n + 3, 2 * n + 4, 255):
+                        ops += ["pushs " + el(key), "pushf %s|sortf" % el(key), "pushb %s|sortb" % el(key),
+                                "search " + el(key)]
+                        if n:
+                            ops += ["pullf|pushf %s|sortf" % el(key), "pullb|pushb %s|sortb" % el(key)]
+                    ops += ["pullf", "pullb", "pushf " + el(1), "pushb " + el(1), "top", "end", "sort", "sortf", "sortb",
+                            "setz 0 1", "setz 3 0", "setz %x 1" % siz]
+                    for m in sorted(set([0, max(n - 1, 0), n, n + 1, n + 2, n + 9, SIZE_MAX, 1 << 63, vec_max_cap(siz),
+                                         vec_max_cap(siz) + 1])):
+                        ops.append("setn %x %d %s" % (m, m % 2, el(77)))
+                        if kind == "v" or m * siz + 24 < (1 << 63):
+                            ops.append("setm %x" % m)
+                    for o in ops:
+                        out.append(pre + ["%s %s" % (P, x) for x in o.split("|")] + ["%s top" % P] + post)
+    return out
+
+
 def load_corpus():
     hs = []
     if CORPUS.exists():
@@ -819,12 +866,16 @@ def shrink(cbin, hist, budget=250):
     return [head] + ops
 
 
+FN = {"rem": "remove", "ins": "insert", "pushb": "push_back", "pushf": "push_fore", "pushs": "push_sort",
+      "pullf": "pull_fore", "pullb": "pull_back", "sortf": "sort_fore", "sortb": "sort_back"}
+
+
 def op_key(hist, idx):
     t = hist[idx].split() if 0 <= idx < len(hist) else ["?"]
     if t[0] == "v":
-        return "a_vec_" + t[2]
+        return "a_vec_" + FN.get(t[2], t[2])
     if t[0] == "b":
-        return "a_buf_" + t[1]
+        return "a_buf_" + FN.get(t[1], t[1])
     return {"vn": "a_vec_new", "vd": "a_vec_die", "vs": "a_vec_swap", "bn": "a_buf_new", "bd": "a_buf_die"}.get(t[0], t[0])
 
 
@@ -946,8 +997,10 @@ def run(ctx):
     corpus = load_corpus()
     hists = [h for _, h in corpus]
     n_corpus = len(hists)
+    hists += systematic()
+    n_sys = len(hists) - n_corpus
     seeds = 1 if quick else 5
-    per_seed = 700 if quick else 9000
+    per_seed = 2500 if quick else 12000
     for s in range(seeds):
         r = random.Random(ctx.subseed("histories/%d" % s))
         for i in range(per_seed):
@@ -1047,14 +1100,15 @@ def run(ctx):
                        "operations (accessors, no-op resizes and set-up lines excluded)")
     ctx.cov["histories"] = len(hists)
     ctx.cov["corpus_histories"] = n_corpus
+    ctx.cov["systematic_histories"] = n_sys
+    ctx.cov["random_histories"] = len(hists) - n_corpus - n_sys
     ctx.cov["branch_hits"] = dict(sorted(tags.items()))
     ctx.cov["branches_not_reached"] = sorted(set(ALL_TAGS) - set(tags))
     ctx.cov["element_sizes"] = SIZES
     ctx.cov["repo"] = str(vlib.REPO)
-    for h in hists[n_corpus:n_corpus + 2]:
-        ctx.sample({"history_head": h[:8]})
-    for hi in range(n_corpus, min(n_corpus + 2, len(hists))):
-        ctx.sample({"output_head": cres[hi]["lines"][:4]})
+    for hi in (n_corpus + n_sys, n_corpus + n_sys + 1, n_corpus + 7):
+        if hi < len(hists) and not cres[hi].get("skipped"):
+            ctx.sample({"history": hists[hi][:7], "implementation_and_model_output": cres[hi]["lines"][:6]})
     ctx.cov["trusted_base"].append(
         "C04: extraction (ExtrOcamlBasic only) and the OCaml driver harness/C04/mdrv.ml; the C driver harness/C04/drv.c with "
         "its allocator shim; memcpy/memmove/realloc/qsort/bsearch are modelled (list splices, ledger, insertion sort, lookup); "
